@@ -29,7 +29,7 @@ func c11Calls() []c11Call {
 	return []c11Call{{"connect", 0}, {"p1", 0}, {"p2", 0}, {"p2", 1}, {"sub", 0}, {"unsub", 0}, {"ping", 0}, {"disconnect", 0}}
 }
 
-var c11Causes = []string{"cancel", "deadline", "local-close", "peer-close", "malformed", "cancel-before", "closed-before"}
+var c11Causes = []string{"cancel", "deadline", "local-close", "peer-close", "malformed", "disconnect", "cancel-before", "closed-before"}
 
 type c11Caller struct {
 	call     c11Call
@@ -117,6 +117,8 @@ func c11Body(cfg c11Cfg, outNet **env.Net) func() {
 			}
 			callers[i] = cc
 		}
+		discRet, discErr := false, error(nil)
+		_ = discErr
 		applyCause := func() {
 			switch cfg.cause {
 			case "cancel", "cancel-before":
@@ -129,6 +131,10 @@ func c11Body(cfg c11Cfg, outNet **env.Net) func() {
 				cli.Close()
 			case "peer-close":
 				s.Close()
+			case "disconnect":
+				// the application shuts the connection down while calls are still waiting
+				discErr = cli.Disconnect(bg)
+				discRet = true
 			case "malformed":
 				s.SendRaw([]byte{0xF0, 0x00}, "reserved packet type 15")
 			}
@@ -181,7 +187,10 @@ func c11Body(cfg c11Cfg, outNet **env.Net) func() {
 			}
 			return fmt.Sprintf("cause %s (concurrent=%v); %v\n tasks alive: %v\n wire:\n  %s", cfg.cause, cfg.concurrent, cs, ts, strings.Join(net.TraceStrings(), "\n  "))
 		}
-		connEnd := cfg.cause == "local-close" || cfg.cause == "peer-close" || cfg.cause == "malformed" || cfg.cause == "closed-before"
+		connEnd := cfg.cause == "local-close" || cfg.cause == "peer-close" || cfg.cause == "malformed" || cfg.cause == "closed-before" || cfg.cause == "disconnect"
+		if cfg.cause == "disconnect" && !discRet {
+			vrt.Failf("c11/still-blocked:disconnect-as-cause", "Disconnect, called while other calls were waiting, has not returned at quiescence\n%s", desc())
+		}
 		ctxEnd := cfg.cause == "cancel" || cfg.cause == "deadline" || cfg.cause == "cancel-before"
 		disconnectCalled := false
 		for _, cc := range callers {
@@ -247,8 +256,8 @@ func runC11(c *Ctx) {
 	c.Bound("pairs", "every unordered pair of calls (excluding connect) blocked at once x connection-ending causes and cancel; P<=1 (thorough: 2)")
 	for _, cl := range calls {
 		for _, cause := range c11Causes {
-			if cl.name == "connect" && (cause == "closed-before") {
-				continue
+			if cl.name == "connect" && (cause == "closed-before" || cause == "disconnect") {
+				continue // a Disconnect behind a pending Connect is the during-connect family (known finding)
 			}
 			run(fmt.Sprintf("C11/single/%s.%d/%s", cl.name, cl.step, cause), c11Cfg{calls: []c11Call{cl}, cause: cause, bound: vrt.Budget{P: p, S: 1}})
 			if !strings.HasSuffix(cause, "-before") {
@@ -283,6 +292,7 @@ func runC11(c *Ctx) {
 	c11LateAcks(c)
 	c11PingPending(c)
 	c11RetryPingCancel(c)
+	c11SecondConnect(c)
 	if last != nil {
 		c.Sample(map[string]any{"wire": last.TraceStrings()})
 	}
@@ -646,6 +656,87 @@ func c11RetryPingCancel(c *Ctx) {
 			Observe: func() uint64 { return net.TraceHash() },
 		}
 		c.Explore(sc)
+	}
+}
+
+// c11SecondConnect: the same BaseClient object is connected a second time (fresh transport) after
+// its first connection ended; calls blocked on the second connection return when that one ends.
+func c11SecondConnect(c *Ctx) {
+	c.Bound("second-connect", "one BaseClient, first connection ended by the peer, Transport replaced, Connect again; then each of Publish QoS1 / Subscribe / Unsubscribe / Ping blocked on the second connection x ending by peer close / local Close / malformed packet / Disconnect; P<=1")
+	for _, call := range []string{"p1", "sub", "unsub", "ping"} {
+		for _, cause := range []string{"peer-close", "local-close", "malformed", "disconnect"} {
+			call, cause := call, cause
+			var net *env.Net
+			sc := &vrt.Scenario{
+				Name:  fmt.Sprintf("C11/second-connect/%s/%s", call, cause),
+				Bound: vrt.Budget{P: 1},
+				Cfg:   vrt.Config{Horizon: int64(60 * time.Second)},
+				Body: func() {
+					net = env.NewNet()
+					bg := vctx.Background()
+					s1 := env.NewScript(net)
+					s1.AutoConnAck = true
+					cli := &mqtt.BaseClient{Transport: s1.Conn}
+					if _, err := cli.Connect(bg, "c11"); err != nil {
+						vrt.Failf("harness", "first connect: %v", err)
+						return
+					}
+					s1.Close()
+					vrt.Settle()
+					s2 := env.NewScript(net)
+					s2.AutoConnAck = true
+					cli.Transport = s2.Conn
+					if _, err := cli.Connect(bg, "c11"); err != nil {
+						vrt.Failf("harness", "second connect on the same BaseClient: %v", err)
+						return
+					}
+					doneSeen := false
+					vrt.GoDaemon("done-watch", func() { vrt.Recv(cli.Done()); doneSeen = true })
+					ret := false
+					var rerr error
+					vrt.Go("caller-"+call, func() {
+						switch call {
+						case "p1":
+							rerr = cli.Publish(bg, &mqtt.Message{Topic: "t", QoS: mqtt.QoS1, Payload: []byte("x")})
+						case "sub":
+							_, rerr = cli.Subscribe(bg, mqtt.Subscription{Topic: "a", QoS: mqtt.QoS1})
+						case "unsub":
+							rerr = cli.Unsubscribe(bg, "a")
+						case "ping":
+							rerr = cli.Ping(bg)
+						}
+						ret = true
+					})
+					vrt.Settle()
+					switch cause {
+					case "peer-close":
+						s2.Close()
+					case "local-close":
+						cli.Close()
+					case "malformed":
+						s2.SendRaw([]byte{0xF0, 0x00}, "reserved packet type 15")
+					case "disconnect":
+						cli.Disconnect(bg)
+					}
+					vrt.Quiesce()
+					if !ret {
+						vrt.Failf("c11/still-blocked:"+call+":second-connection:"+cause, "%s on the second connection of a reused BaseClient is still blocked after the connection ended (%s)\n wire:\n  %s", call, cause, strings.Join(net.TraceStrings(), "\n  "))
+					} else if rerr == nil {
+						vrt.Failf("c11/success-without-answer:"+call+":second-connection", "%s returned nil although nothing was answered", call)
+					}
+					if !doneSeen {
+						vrt.Failf("c11/done-not-closed:second-connection:"+cause, "the second connection of a reused BaseClient ended (%s) but Done() is not closed", cause)
+					}
+					for _, t := range vrt.Tasks() {
+						if strings.HasPrefix(t.Name, "connect:") && !t.Done {
+							vrt.Failf("c11/reader-still-running:second-connection:"+cause, "the connection ended but a reader goroutine is still running (%s)", t.Blocked)
+						}
+					}
+				},
+				Observe: func() uint64 { return net.TraceHash() },
+			}
+			c.Explore(sc)
+		}
 	}
 }
 
